@@ -273,9 +273,11 @@ func scenUPL(s *sched.Sim, cfg Config, res *Result) {
 	}
 	var cr *clientResp
 	done := false
+	chunk := 1 + s.T.Choose(4096)
+	withErr := s.T.Bool(1, 2)
 	s.Go("client", func() {
-		b := &simnet.Body{Data: body.Bytes(), FailAt: failAt, Chunks: []int{1 + s.T.Choose(4096)}}
-		if truncated && s.T.Bool(1, 2) {
+		b := &simnet.Body{Data: body.Bytes(), FailAt: failAt, Chunks: []int{chunk}}
+		if truncated && withErr {
 			b.FailErr = simnet.ErrBodyReset
 		}
 		r := httptest.NewRequest(http.MethodPost, "/graphql", b)
